@@ -113,12 +113,13 @@ def fixed(args):
         if e.get("status") != "fixed" or not e.get("replay"):
             continue
         mod = "checks." + e["property"].lower()
-        rc, out, err = _run([PY, "-m", mod, "--replay", e["replay"]])
-        state = {0: "holds (fixed)", 1: "REPRODUCES AGAIN", 2: "harness error"}.get(rc, "exit %d" % rc)
-        print("  %-45s %s" % (e["id"], state))
-        if rc != 0:
-            bad += 1
-            print(out[-600:], err[-300:])
+        for rp in e.get("replays") or [e["replay"]]:
+            rc, out, err = _run([PY, "-m", mod, "--replay", rp])
+            state = {0: "holds (fixed)", 1: "REPRODUCES AGAIN", 2: "harness error"}.get(rc, "exit %d" % rc)
+            print("  %-45s %-55s %s" % (e["id"], rp, state))
+            if rc != 0:
+                bad += 1
+                print(out[-600:], err[-300:])
     print("fixed findings: %s" % ("OK" if not bad else "FAILED"))
     return 0 if not bad else 1
 
